@@ -2,7 +2,7 @@
   FframeGeneralMix — `C11_histories_interleaved_sharp`: the interleaved histories of Lemmas/FmapMix.lean with the sharp
   side condition `sharpTouches` (Model/FframeSpec.lean) in the place of `touchesEntries`.
 -/
-import XotModel.Lemmas.FframeGeneral
+import XotModel.Lemmas.FframeGeneralAll
 import XotModel.Lemmas.FmapMix
 
 namespace XotModel
@@ -86,10 +86,72 @@ theorem abs_specSetValue {f : Forest} (nd : f.allHandles.Nodup) {n x : Nat} (v :
       rw [hg]
       exact List.mem_map.2 ⟨c, hc, e⟩
 
+/-! ### The views from the frame of the element and of its children -/
+
+theorem values_of_handles : ∀ (ks ks' : List HTree), ks'.map (·.handle) = ks.map (·.handle) →
+    (∀ k ∈ ks, ∀ k' ∈ ks', k'.handle = k.handle → k'.value = k.value) → ks'.map (·.value) = ks.map (·.value)
+  | [], [], _, _ => rfl
+  | [], _ :: _, h, _ => by cases h
+  | _ :: _, [], h, _ => by cases h
+  | k :: ks, k' :: ks', h, hv => by
+    simp only [List.map_cons, List.cons.injEq] at h ⊢
+    exact ⟨hv k (List.mem_cons_self ..) k' (List.mem_cons_self ..) h.1,
+      values_of_handles ks ks' h.2 (fun a ha b hb => hv a (List.mem_cons_of_mem _ ha) b (List.mem_cons_of_mem _ hb))⟩
+
+/-- The view as a function of the values of the children. -/
+def absV (k : MapKind) (vs : List Value) : List (Nat × Payload) :=
+  match k with
+  | .namespaces => (vs.takeWhile (fun v => v.category == .namespace)).map (fun v => (Forest.entryKey v, payloadOf v))
+  | .attributes =>
+    ((vs.dropWhile (fun v => v.category == .namespace)).takeWhile (fun v => v.category == .attribute)).map
+      (fun v => (Forest.entryKey v, payloadOf v))
+
+theorem absT_eq_absV (k : MapKind) (t : HTree) : absT k t = absV k (t.kids.map (·.value)) := by
+  cases k with
+  | namespaces =>
+    simp only [absT, absV, mapChildren, List.takeWhile_map, List.map_map]
+    rfl
+  | attributes =>
+    simp only [absT, absV, mapChildren, List.takeWhile_map, List.dropWhile_map, List.map_map]
+    rfl
+
+theorem abs_of_frame {f f' : Forest} (nd : f.allHandles.Nodup) (nd' : f'.allHandles.Nodup) {x : Nat}
+    (hl : f.isLive x = true) (fr : Forest.FrameAt f f' x)
+    (hk : ∀ a ∈ f.kidHandles x, f'.value? a = f.value? a) (k : MapKind) : abs k f' x = abs k f x := by
+  obtain ⟨t, hg⟩ := Forest.get_of_live hl
+  obtain ⟨t', hg'⟩ := Forest.get_of_live fr.live
+  have hkids := fr.kids
+  unfold Forest.kidHandles at hkids
+  rw [hg, hg'] at hkids
+  unfold abs
+  rw [hg, hg']
+  simp only []
+  rw [absT_eq_absV, absT_eq_absV]
+  congr 1
+  have hth : t.handle = x := (findList?_some f.roots t hg).1
+  have hth' : t'.handle = x := (findList?_some f'.roots t' hg').1
+  cases t with
+  | node q v L =>
+    cases t' with
+    | node q' v' L' =>
+      have e1 : q = x := hth
+      have e2 : q' = x := hth'
+      subst e1; subst e2
+      have so : SiteAt f _ v L := ⟨nd, hg⟩
+      have so' : SiteAt f' _ v' L' := ⟨nd', hg'⟩
+      apply values_of_handles L L' hkids
+      intro c hc c' hc' e
+      have g1 := PairAfter.site_getKid so hc
+      have g2 := PairAfter.site_getKid so' hc'
+      rw [e] at g2
+      have := hk c.handle (by unfold Forest.kidHandles; rw [hg]; exact List.mem_map_of_mem hc)
+      simp only [Forest.value?, g1, g2, Option.map_some, Option.some.injEq] at this
+      exact this
+
 /-! ### A step that does not touch `x` in the sharp reading -/
 
 theorem sharp_step {s : PStore} (hi : s.forest.Inv) (c : PCall) (hw : c.wellKinded) (x : Nat)
-    (ht : sharpTouches s.forest x c = false) :
+    (ht : sharpTouches s x c = false) :
     (∀ k, abs k (s.step c).forest x = abs k s.forest x) ∧
       (s.step c).forest.isElement x = s.forest.isElement x := by
   have coarse : touchesEntries s.forest x c = false →
@@ -99,38 +161,38 @@ theorem sharp_step {s : PStore} (hi : s.forest.Inv) (c : PCall) (hw : c.wellKind
   cases c with
   | parse m t => exact coarse ht
   | api y =>
-    by_cases hf : y.framed = true
+    by_cases hf : (y.framed && decide ((y.run s.store).2 = .ok) && y.args.all (fun a => s.forest.isLive a)) = true
     · simp only [sharpTouches, if_pos hf, Bool.or_eq_false_iff, Bool.not_eq_false'] at ht
       obtain ⟨hl, hany⟩ := ht
-      have hnot : ∀ a ∈ x :: s.forest.kidHandles x, a ∉ y.writtenParents s.forest := by
-        intro a ha hm
+      simp only [Bool.and_eq_true, decide_eq_true_eq, List.all_eq_true] at hf
+      obtain ⟨⟨hfr, hok⟩, hla⟩ := hf
+      have hi' : (s.step (.api y)).forest.Inv := PStore.fph_step_inv hi (.api y) hw
+      have hnot : ∀ a ∈ x :: s.forest.kidHandles x, a ∉ y.writtenParents s.forest ∧
+          a ∉ y.removedHandles s.forest ∧ a ∉ y.movedSubtree s.forest := by
+        intro a ha
         have := List.any_eq_false.1 hany a ha
-        simp only [decide_eq_true_eq] at this
-        exact this (List.mem_append_left _ hm)
-      have hnx : x ∉ y.writtenParents s.forest := hnot x (List.mem_cons_self ..)
-      have fr := (frame_general_framed (s := s.store) hi hf hl hnx).1
-      have hel : (s.step (.api y)).forest.isElement x = s.forest.isElement x := by
-        unfold Forest.isElement
-        have : (s.step (.api y)).forest.value? x = s.forest.value? x := fr.value
-        rw [this]
-      refine ⟨fun k => ?_, hel⟩
-      show abs k (y.run s.store).1.forest x = abs k s.store.forest x
-      rcases framedShape s.store y hf with e | ⟨b, e⟩ | ⟨v, e⟩ | ⟨n, v, hwp, e⟩
-      · rw [e]
-      · rw [e]; rfl
-      · rw [e]
-        obtain ⟨t, hg⟩ := Forest.get_of_live hl
-        have hg' : s.store.forest.get? x = some t := hg
-        unfold abs
-        rw [get?_newNode_live v hg', hg']
-      · rw [e]
-        have hwp' : y.writtenParents s.forest = [n] := hwp
-        apply abs_specSetValue hi.nodup v k
-        · intro eq; apply hnx; rw [hwp', eq]; exact List.mem_singleton.2 rfl
-        · intro hm
-          apply hnot n (List.mem_cons_of_mem _ hm)
-          rw [hwp']; exact List.mem_singleton.2 rfl
-    · have : sharpTouches s.forest x (.api y) = touchesEntries s.forest x (.api y) := by
+        simp only [decide_eq_true_eq, List.mem_append, not_or] at this
+        exact ⟨this.1.1, this.1.2, this.2⟩
+      have frame : ∀ a, s.forest.isLive a = true → a ∈ x :: s.forest.kidHandles x →
+          Forest.FrameAt s.forest (s.step (.api y)).forest a := by
+        intro a hal ha
+        obtain ⟨h1, h2, h3⟩ := hnot a ha
+        exact frame_general (s := s.store) hi hfr hla hok hal h1 h2 h3
+      have frx := frame x hl (List.mem_cons_self ..)
+      have hkl : ∀ a ∈ s.forest.kidHandles x, s.forest.isLive a = true := by
+        intro a ha
+        have := parent?_of_kid hi.nodup ha
+        unfold Forest.parent? at this
+        cases hc : s.forest.ctx? a with
+        | none => rw [hc] at this; cases this
+        | some cx =>
+          have := Forest.get?_of_ctx hi.nodup hc
+          exact Forest.isLive_of_get this
+      refine ⟨fun k => abs_of_frame hi.nodup hi'.nodup hl frx
+        (fun a ha => (frame a (hkl a ha) (List.mem_cons_of_mem _ ha)).value) k, ?_⟩
+      unfold Forest.isElement
+      rw [frx.value]
+    · have : sharpTouches s x (.api y) = touchesEntries s.forest x (.api y) := by
         simp only [sharpTouches, if_neg hf]
       exact coarse (this ▸ ht)
 
